@@ -43,6 +43,7 @@ def make(shape: Dict[str, Any]) -> Any:
     delay: int = shape.get('delay', 10000)
     events: List[Tuple[str, str, int]] = shape.get('events', [])  # ('learn'|'refresh'|'goodbye', key, timer steps before)
     ttl_min: int = shape.get('ttl_min', 1125)
+    ttl_fixed = shape.get('ttl_fixed')  # concrete TTL(s): idle polls on the way to the 75 % point then do not fork
     steps_after: int = shape.get('steps', 8)
     qtype = shape.get('question_type')
     gap_max: int = shape.get('gap_max', 30000)
@@ -134,6 +135,8 @@ def make(shape: Dict[str, Any]) -> Any:
             spec = PTRS[key]
             if op == 'goodbye':
                 ttl: Any = 0
+            elif ttl_fixed is not None:
+                ttl = ttl_fixed[i] if isinstance(ttl_fixed, list) else ttl_fixed
             else:
                 ttl = ctx.int(f'ttl{i}', ttl_min, TTL_MAX)
             zc.record_manager.async_updates_from_response(mk_incoming(now, [spec.make(ttl, now, False)]))
@@ -146,8 +149,16 @@ def make(shape: Dict[str, Any]) -> Any:
                 # keep the pending schedule (tolerated: "at about 75 percent")
                 if not (old is not None and old.due is not None and -delay <= new.due - old.due and new.due - old.due <= delay):
                     chains[key] = new
-        for _ in range(steps_after):
+        busy = idle = 0
+        while busy < steps_after and idle < 400:
+            before = len(env.sent_log(zc))
             step()
+            if len(env.sent_log(zc)) > before or len(startup_times) < 4:
+                busy += 1
+            elif ttl_fixed is not None:
+                idle += 1  # a poll that found nothing due (only skipped over when the TTLs are concrete)
+            else:
+                busy += 1
         if ctx.twin:
             return
         ctx.check(not loop.callback_exceptions, f'exception in a timer callback: {loop.callback_exceptions[:1]}')
@@ -178,6 +189,8 @@ QUICK = {
     'two-types-apart': sh(types=[T1, T2], events=[('learn', 'x', 4), ('learn', 'z', 1)], steps=5),
     'refresh': sh(events=[('learn', 'x', 4), ('refresh', 'x', 1)], steps=5),
     'goodbye': sh(events=[('learn', 'x', 4), ('goodbye', 'x', 1)], steps=4),
+    'two-records-close-fixed-ttl': sh(events=[('learn', 'x', 5), ('learn', 'y', 0)], steps=6, ttl_fixed=1125, gap_max=9000),
+    'two-records-fixed-ttls': sh(events=[('learn', 'x', 4), ('learn', 'y', 1)], steps=6, ttl_fixed=[1200, 1130], gap_max=9000),
 }
 THOROUGH = {
     'one-record-delay1s': sh(events=[('learn', 'x', 4)], steps=7, delay=1000),
